@@ -833,6 +833,7 @@ class KernFeatureWriter(BaseFeatureWriter):
             scriptsToReference = lookups.keys() - DIST_ENABLED_SCRIPTS
         else:
             scriptsToReference = DIST_ENABLED_SCRIPTS.intersection(lookups.keys())
+        referenced = set()
         for script in sorted(scriptsToReference - DFLT_SCRIPTS):
             for tag in unicodedata.ot_tags_from_script(script):
                 # Insert line breaks between statements for niceness :).
@@ -852,6 +853,29 @@ class KernFeatureWriter(BaseFeatureWriter):
                 ast.addLookupReferences(
                     feature, lookupsForThisScript.values(), tag, languages
                 )
+                referenced.add(tag)
+
+        # A script that the feature file declares but that has no kerning of its
+        # own still needs the kerning between common glyphs (punctuation, digits):
+        # once the script has a record in GPOS -- the mark features are registered
+        # for every declared script -- nothing of DFLT applies to its runs.
+        if isKernBlock:
+            commonLookups = {}
+            for dfltScript in DFLT_SCRIPTS:
+                if dfltScript in lookups:
+                    commonLookups.update(lookups[dfltScript])
+            distTags = {
+                tag
+                for script in DIST_ENABLED_SCRIPTS
+                for tag in unicodedata.ot_tags_from_script(script)
+            }
+            for tag, languages in sorted(feaLanguagesByScript.items()):
+                if commonLookups and tag != "DFLT" and tag not in referenced | distTags:
+                    if feature.statements:
+                        feature.statements.append(ast.Comment(""))
+                    ast.addLookupReferences(
+                        feature, commonLookups.values(), tag, languages
+                    )
 
 
 def splitKerning(pairs, glyphScripts):
